@@ -328,3 +328,63 @@ Proof.
   intros Ha Hb [Hs Ht]. split; [|exact Ht]. unfold swap_entry, with_sym, swap1. cbn [re_symbol].
   destruct (_ =? a); [exact Hb|]. destruct (_ =? b); [exact Ha|exact Hs].
 Qed.
+
+(* ---------- a whole swap log (what arrange_local_symbols' callback forwards) ---------- *)
+Definition retarget_entry (log : list (N * N)) (r : rel_entry) : rel_entry := with_sym r (retarget log (re_symbol r)).
+
+Definition apply_log junk (relsec : N) (log : list (N * N)) (start : res elfio) : res elfio :=
+  fold_left (fun acc pr => e <- acc ;; swap_symbols junk e relsec (fst pr) (snd pr)) log start.
+
+Lemma upd_sec_upd_sec el i s s' : upd_sec (upd_sec el i s) i s' = upd_sec el i s'.
+Proof. unfold upd_sec, with_secs. cbn. now rewrite updN_updN. Qed.
+
+Lemma retarget_entry_fits c log r : Forall (fun p => sym_fits c (fst p) /\ sym_fits c (snd p)) log ->
+  rel_fits c r -> rel_fits c (retarget_entry log r).
+Proof.
+  intros Hl [Hs Ht]. split; [|exact Ht]. unfold retarget_entry, with_sym, retarget. cbn [re_symbol].
+  revert Hs. generalize (re_symbol r). induction Hl as [|p t [Ha Hb] _ IH]; intros x Hx; cbn [fold_left]; [exact Hx|].
+  apply IH. unfold swap1. destruct (_ =? fst p); [exact Hb|]. destruct (_ =? snd p); [exact Ha|exact Hx].
+Qed.
+
+Theorem swap_log_spec junk c e is_rela relsec log :
+  Forall (fun p => sym_fits c (fst p) /\ sym_fits c (snd p)) log ->
+  forall el s es,
+  get_sec el relsec = Some s ->
+  acls el = c -> el_enc el = e ->
+  Inv s -> s_cls s = c -> contents s = concat (map (rel_enc c e is_rela) es) ->
+  sh_type s = (if is_rela then SHT_RELA else SHT_REL) -> sh_entsize s = rel_esz c is_rela ->
+  sh_size s < size_bound c -> lenN es < 2 ^ 32 ->
+  Forall (rel_fits c) es ->
+  exists s',
+    apply_log junk relsec log (Ok el) = Ok (upd_sec el relsec s') /\
+    Inv s' /\ contents s' = concat (map (rel_enc c e is_rela) (map (retarget_entry log) es)) /\
+    sh_type s' = sh_type s /\ sh_entsize s' = sh_entsize s /\ sh_size s' = sh_size s /\ s_cls s' = s_cls s.
+Proof.
+  intros Hl. induction Hl as [|p t [Ha Hb] Ht IH]; intros el s es Hg Hc He HI HK HC HT HE HB Hlen Hf.
+  - exists s. unfold apply_log. cbn [fold_left].
+    assert (Eel : el = upd_sec el relsec s).
+    { unfold upd_sec, with_secs. unfold get_sec in Hg. rewrite (updN_same_value_loc _ _ _ Hg). destruct el; reflexivity. }
+    split; [now rewrite <- Eel|]. split; [exact HI|]. split; [|repeat split].
+    rewrite HC. f_equal. f_equal. rewrite <- (map_id es) at 1. apply map_ext. intros r.
+    unfold retarget_entry, retarget. cbn [fold_left]. now rewrite with_sym_same.
+  - destruct (swap_symbols_spec junk el relsec s c e is_rela es (fst p) (snd p) Hg Hc He HI HK HC HT HE HB Hlen Hf Ha Hb)
+      as (s1 & E1 & HI1 & HC1 & HT1 & HE1 & HS1 & HK1).
+    assert (Hrel : relsec < lenN (el_secs el)) by (unfold get_sec in Hg; exact (nth_optN_lt _ _ _ Hg)).
+    destruct (IH (upd_sec el relsec s1) s1 (map (swap_entry (fst p) (snd p)) es)) as (s' & E' & HI' & HC' & HT' & HE' & HS' & HK').
+    + now apply get_upd_sec.
+    + rewrite <- Hc. reflexivity.
+    + rewrite <- He. reflexivity.
+    + exact HI1.
+    + congruence.
+    + exact HC1.
+    + congruence.
+    + congruence.
+    + congruence.
+    + now rewrite lenN_map.
+    + apply Forall_forall. intros r' Hin. apply in_map_iff in Hin. destruct Hin as (r0 & <- & Hin0).
+      apply swap_entry_fits; try assumption. rewrite Forall_forall in Hf. now apply Hf.
+    + exists s'. unfold apply_log in *. cbn [fold_left bind]. rewrite E1. rewrite E', upd_sec_upd_sec.
+      split; [reflexivity|]. split; [exact HI'|]. split; [|repeat split; congruence].
+      rewrite HC'. f_equal. f_equal. rewrite map_map. apply map_ext. intros r.
+      unfold retarget_entry, swap_entry, with_sym, retarget. cbn [re_symbol re_offset re_type re_addend fold_left]. reflexivity.
+Qed.
